@@ -89,6 +89,7 @@ def _gen_cfg(rng, prop):
         # a second round through the SAME store handles after another client delivered part of what
         # is still missing (the handles hold memoised listings of the store's fan-out directories)
         cfg["second_round"] = rng.random() < 0.4
+        cfg["req_as_iter"] = rng.random() < 0.25  # the request is any Iterable: here a one-shot iterator
         cfg["ext_seed"] = rng.randrange(10**6)
     return cfg
 
@@ -433,10 +434,11 @@ class Run:
         if cfg.get("via_push"):
             return self.push(request_oids)
         cache_odb = {"src": self.src, "dest": self.dest, None: None}[cfg["cache_odb"]]
+        req = [_hi(o) for o in request_oids]
         return transfer(
             self.src,
             self.dest,
-            [_hi(o) for o in request_oids],
+            iter(req) if cfg.get("req_as_iter") else req,
             jobs=cfg["jobs"],
             verify=cfg.get("verify", False),
             hardlink=cfg["hardlink"],
